@@ -275,7 +275,8 @@ func init() {
 		if infra != nil {
 			c.Infra("%v", infra)
 		}
-		c.Set("evaluations", len(bs))
+		ndirs := runTrackDirs(c, lfs)
+		c.Set("evaluations", len(bs)+ndirs)
 		c.Set("distinct_nontrivial", len(bs))
 		c.Set("probe_names", len(names))
 		c.Set("rule", "behaviours = per-edge output of spec/Track.tla (sequences of <= MaxOps track/untrack operations over all names of <= MaxLen characters from 13 character classes and 4 glob patterns, 3 pre-existing .gitattributes classes); every one-step behaviour is replayed, two-step ones stratified by (ops, pre-class, character classes); after each step git check-attr is asked about every name")
